@@ -281,16 +281,31 @@ PROPS["C11"] = {
     "assumptions": [],
 }
 
+PROPS["C20"] = {
+    "level": "exploration",
+    "level_text": "held on N runs of the real codegen (through the crux_verif entry point) over all 7 bundled descriptions, including the two whose snapshot tests are disabled: the registry (as a JSON value) was identical to the untransformed run under (a) a random non-monotone bijection applied consistently to every item id of every crate description (index / paths keys, id, root, parent, items / variants / fields / impls / implementations / tuple lists, links), (b) fresh deserialisation of every description (new HashMap seeds; the number of distinct index iteration orders and crate loading orders actually seen is reported); every referenced TYPENAME is defined; enum variant indices are 0..n-1 and in the declaration order read independently from the rustdoc description (serde-skipped variants removed); every shipped protocol type's entry equals the schema traced from its real serde implementation.",
+    "level_note": "map iteration orders and crate loading orders cannot be chosen, only sampled by re-running; the evidence reports how many distinct ones were observed",
+    "technique": "metamorphic re-runs (id renumbering, fresh hash seeds) + closure / contiguity / traced-schema monitors",
+    "rule": "description x transformation (2 of 3 renumbered, all freshly deserialised); non-trivial = transformed run whose registry equals the baseline; distinct = (description, transformation, seed)",
+    "lanes": [{"name": "clilab", "pkg": "clilab", "bin": "clilab", "workers": {"quick": 7, "thorough": 16}, "timeout": {"quick": 1200, "thorough": 7200}}],
+    "floors": {"quick": {"evaluations": 60, "distinct_nontrivial": 50, "renumbered_runs": 30, "enums_compared_with_declaration_order": 100, "protocol_types_compared_with_traced_schema": 100},
+               "thorough": {"evaluations": 3000, "distinct_nontrivial": 3000}},
+    "must_cover": {"descriptions": ["bridge_echo", "cat_facts", "counter", "hello_world", "notes", "simple_counter", "tap_to_pay"],
+                   "protocol_types": ["HttpRequest", "HttpResult", "HttpError", "KeyValueOperation", "KeyValueResult", "TimeRequest", "TimeResponse", "RenderOperation"]},
+    "assumptions": ["the bundled crate descriptions are snapshots of the capability crates taken upstream; agreement with the traced schema is checked for the types as they are in /repo now"],
+}
+
 ENGINES = [
     {"name": "cmdlab", "path": "harness/cmdlab", "serves_properties": ["C01", "C02", "C03", "C04", "C05", "C06", "C07", "C09"],
      "kind_free_text": "random program generator + executable reference model of command semantics + hosts (direct, stream-polled, nested, Core, legacy, bincode/JSON bridge) run in lock-step on the real crux code"},
     {"name": "schedlab", "path": "harness/schedlab", "serves_properties": ["C08"],
      "kind_free_text": "thread-schedule controller installed through the crux_verif hook points (record / forced single preemption / random yields) + stress lanes for ThreadSanitizer and Miri; oracle = cmdlab model over commuting operations"},
     {"name": "caplab", "path": "harness/caplab", "serves_properties": ["C10", "C11", "C13", "C14", "C15", "C16", "C17", "C18", "C19"],
-     "kind_free_text": "capability lab app (http, kv, time, platform, render through both effect macros and both APIs) with job/outcome protocol; bins: wirelab (schema codec), httplab, kvlab, timelab ..."},
+     "kind_free_text": "capability lab app (http, kv, time, platform, render through both effect macros and both APIs) with job/outcome protocol; bins: wirelab (schema codec), httplab, kvlab, timelab, occlab, detlab"},
+    {"name": "bridgefuzz", "path": "harness/cmdlab/src/bin/bridgefuzz.rs", "serves_properties": ["C12"],
+     "kind_free_text": "malformed-input injector with twin bridge, counting global allocator and panic trap over a total app"},
+    {"name": "clilab", "path": "harness/clilab", "serves_properties": ["C20"],
+     "kind_free_text": "metamorphic driver of crux_cli's codegen::run over the bundled rustdoc descriptions"},
 ]
 
-NOT_APPLICABLE = [
-    {"property_id": p, "reason": "check not built yet in this session (see DESIGN.md); to be claimed once its engine exists"}
-    for p in ["C20"]
-]
+NOT_APPLICABLE = []
